@@ -200,16 +200,24 @@ Definition conn_scenario (ints : list N) (bs : list bytes) : list N :=
                            (fun k => nth k hs None) writes in
           let evs := read_stream stream (negb (eof =? 0)) in
           (* the harness always closes the server at the end: a final stop request *)
-          (* stop_after: k < 9998 = stop request after k reader events; 9999 = only the final
-             stop when the harness closes the server; 9998 = no stop at all (the connection must
-             end by itself; another connection follows) *)
-          let ins := map IRd (firstn (N.to_nat stop_after) evs)
-                     ++ (if stop_after <? 9998 then [IStop]
-                         else map IRd (skipn (N.to_nat stop_after) evs) ++ (if stop_after =? 9998 then [] else [IStop])) in
+          (* stop_after: k < 9000 = stop request after k reader events; 9000+k = the stop arrives
+             while the transition produced by the k-th event is still being offered to the manager
+             (no approval); 9999 = only the final stop when the harness closes the server; 9998 = no
+             stop at all (the connection ends by itself; another connection follows) *)
+          let run_ins :=
+            if stop_after <? 9000 then
+              snd (conn_run_auto cf pl cinit (map IRd (firstn (N.to_nat stop_after) evs) ++ [IStop]))
+            else if stop_after <? 9998 then
+              let k := N.to_nat (stop_after - 9000) in
+              let (st1, a1) := conn_run_auto cf pl cinit (map IRd (firstn (k - 1) evs)) in
+              let (st2, a2) := conn_run cf pl st1 (map IRd (firstn 1 (skipn (k - 1) evs)) ++ [IStop]) in
+              a1 ++ a2
+            else
+              snd (conn_run_auto cf pl cinit (map IRd evs ++ (if stop_after =? 9998 then [] else [IStop]))) in
           let first := send_open cf lid caps in
           match first with
           | AWrite _ :: _ =>
-              flat_map tok_action first ++ flat_map tok_action (snd (conn_run_auto cf pl cinit ins))
+              flat_map tok_action first ++ flat_map tok_action run_ins
           | _ => flat_map tok_action first
           end
       | [] => [998]
